@@ -96,7 +96,7 @@ def run(ctx: core.Ctx) -> core.Report:
                 "and 3 unicast peers, bursts of up to 40 entries, requests at window edges in both orders (adversarial "
                 "scheduling), requests during announcer stop / restart, collection timeout 0 / 5 / 20 ms; queue_send wrapped to "
                 "observe requests; every step compared with the Lean model")
-    stateful.run_scenarios(ctx, rep, make, oracle, ctx.n(80, 1500), "c15")
+    stateful.run_scenarios(ctx, rep, make, oracle, ctx.n(200, 3000), "c15")
     return rep
 
 
